@@ -220,6 +220,15 @@ def run(ctx: Ctx) -> None:
     seeds = [0, 1, 2] if quick else [0, 1, 2, 3, 4, 5, 6, 7]
     cases = lc.build_cases(ctx, 60 if quick else 600, [4, 6, 8, 10], with_corpus=True)
     cases = [c for c in cases if len(c["jobs"]) <= 60]
+    # the recorded examples of this property's known findings always run (their KNOWN-FINDING line is printed by every
+    # run, and a finding that disappears shows in the evidence)
+    known_defs = [f["example"]["definition"] for f in ctx.findings
+                  if isinstance(f.get("example"), dict) and "definition" in f["example"]]
+    for d, rp in zip(known_defs, pvlib.lean([{"op": "dg.runs", "k": 2, "cap": 400, "limit": 3000, "blk": d}
+                                             for d in known_defs]) if known_defs else []):
+        if rp.get("jobs") and len(rp["jobs"]) <= 60:
+            cases.append({"kind": "known_example", "blk": d, "jobs": rp["jobs"], "classes": sorted(lc.finding_classes(d))})
+            ctx.tick("def_known_example")
     # job sets with counted multisets (the same event type 1, 2 or 3 times in parallel, a different number in every
     # job): which multiset is seen first depends on the presentation.  Outside F's distinct names: only the ingestion
     # clause is judged on them.
@@ -346,7 +355,12 @@ def run(ctx: Ctx) -> None:
             continue
         if i in verdicts:
             what, extra = verdicts[i]
-            lc.report(ctx, c, what, extra)
+            # the learner's recorded defect classes are findings of C01/C05 (an ill-formed text); seen through C03 they
+            # show as "well-formed under one hash seed / presentation, ill-formed under another".  Only that kind of
+            # difference on a member of a listed class is matched against the known findings (key <class>:wf-flip);
+            # a difference between two well-formed diagrams never is.
+            flip = what.startswith("one presentation yields a well-formed diagram")
+            lc.report(ctx, {**c, "classes": [k + ":wf-flip" for k in c["classes"]] if flip else []}, what, extra)
     history_part(ctx, cases, runs, quick)
     ctx.assumptions += [
         "the ingestion clauses are theorems (every job list); independence of what follows ingestion (C03_walk_full in "
